@@ -549,6 +549,22 @@ let run_c07 (input : S.t) (observed : S.t) : S.t * string =
                   | _ -> ()) ers ors
             | _ -> ()) elays olays
       | _ -> ());
+  (* an error the model predicts, reported with the same path and kind but located at another node of
+     the document than the offending one *)
+  (if not garbled then
+     match expected, c07_project false observed with
+     | S.L (S.A "layouts" :: elays), S.L (S.A "layouts" :: olays) when List.length elays = List.length olays ->
+       List.iter2 (fun e o -> match e, o with
+           | S.L (S.A "lay" :: _ :: ers), S.L (S.A "lay" :: _ :: ors) when List.length ers = List.length ors ->
+             List.iter2 (fun er orr -> match er, orr with
+                 | S.L [S.A "r"; _; _; _; S.L (S.A "errs" :: ee); _], S.L [S.A "r"; _; _; _; S.L (S.A "errs" :: oe); _] ->
+                   let noloc = List.map (function S.L [S.A "e"; p; _; k] -> S.to_string (S.L [p; k]) | x -> S.to_string x) in
+                   let strs l = List.sort compare (List.map S.to_string l) in
+                   if List.sort compare (noloc ee) = List.sort compare (noloc oe) && strs ee <> strs oe
+                   then add "fails:error-located-at-another-place-than-the-offending-selection"
+                 | _ -> ()) ers ors
+           | _ -> ()) elays olays
+     | _ -> ());
   (expected, match !fails with [] -> "holds" | f :: _ -> f)
 
 (* a refused request: only its shape is compared *)
